@@ -464,4 +464,71 @@ example : (Ty.fixedDict [("a", .array .string none), ("b", .fixedDict [("x", .in
         (.dict [("a", .list [.str [0xC3, 0xA9], .bytes [0xFF]]), ("b", .none)]) = true := by
   decide +kernel
 
+/-! ### dict payloads: the key order of the payload is irrelevant -/
+
+theorem find_key_unique (k : String) : ∀ (l : List (String × Val)) (x : String × Val), x ∈ l → x.1 = k →
+    (l.map (·.1)).Nodup → l.find? (·.1 == k) = some x := by
+  intro l
+  induction l with
+  | nil => intro x hx; cases hx
+  | cons a l ih =>
+    intro x hx hk hnd
+    rw [List.map_cons, List.nodup_cons] at hnd
+    by_cases ha : a.1 = k
+    · have : a = x := by
+        cases hx with
+        | head => rfl
+        | tail _ h =>
+          exact absurd (List.mem_map.mpr ⟨x, h, by rw [hk, ha]⟩) hnd.1
+      subst this
+      simp [List.find?, ha]
+    · have hx' : x ∈ l := by
+        cases hx with
+        | head => exact absurd hk ha
+        | tail _ h => exact h
+      have : (a.1 == k) = false := by simpa using ha
+      simp only [List.find?, this]
+      exact ih x hx' hk hnd.2
+
+theorem find_key_none (k : String) (l : List (String × Val)) (h : ∀ y ∈ l, y.1 ≠ k) : l.find? (·.1 == k) = none := by
+  induction l with
+  | nil => rfl
+  | cons a l ih =>
+    have : (a.1 == k) = false := by simpa using h a (List.mem_cons_self ..)
+    simp only [List.find?, this]
+    exact ih (fun y hy => h y (List.mem_cons_of_mem _ hy))
+
+/-- looking a key up does not depend on the order in which the (distinct) keys were inserted -/
+theorem payloadGet_perm (p p' : List (String × Val)) (hperm : p.Perm p') (hnd : (p.map (·.1)).Nodup) (k : String) :
+    payloadGet? p' k = payloadGet? p k := by
+  have hnd' : (p'.map (·.1)).Nodup := (hperm.map (·.1)).nodup_iff.mp hnd
+  unfold payloadGet?
+  by_cases hex : ∃ x ∈ p, x.1 = k
+  · obtain ⟨x, hx, hk⟩ := hex
+    rw [find_key_unique k p x hx hk hnd, find_key_unique k p' x (hperm.mem_iff.mp hx) hk hnd']
+  · have hn : ∀ y ∈ p, y.1 ≠ k := fun y hy e => hex ⟨y, hy, e⟩
+    rw [find_key_none k p hn, find_key_none k p' (fun y hy => hn y (hperm.mem_iff.mpr hy))]
+
+/-- **The bytes written for a dict depend on the mapping, not on the insertion order of its keys**:
+two payloads that are permutations of each other (distinct keys) are written identically — the
+fields go out in the order of the *definition*, which is the order the reader expects. -/
+theorem writeDict_order_irrelevant (h : Nat) (fs : List (String × Ty)) (an : Bool) (p p' : List (String × Val))
+    (hperm : p.Perm p') (hnd : (p.map (·.1)).Nodup) :
+    writeDictPayload h fs an p' = writeDictPayload h fs an p := by
+  have ho : orderDict fs p' = orderDict fs p := by
+    unfold orderDict
+    rw [hperm.length_eq.symm]
+    split
+    · rfl
+    · congr 1
+      funext f
+      rw [payloadGet_perm p p' hperm hnd f.1]
+  unfold writeDictPayload
+  rw [ho]
+
+/-- a payload already in definition order is what `writeImpl` gets -/
+example : orderDict [("a", .int 1 false), ("b", .int 2 false)] [("b", .int 7), ("a", .int 3)] = some [("a", .int 3), ("b", .int 7)] := by
+  rfl
+
+
 end ReplayModel.C16
